@@ -34,6 +34,11 @@ def run(ctx):
                          consequence=' - the connection handed to serve() may already report an error, so reads return nothing')
     ctx.floor('C14.init constructors of the socket classes compared', n_c, 2)
     check_sigpipe(ctx, prog)
+    check_nfds(ctx, prog)
+    # a serve() that reads from a client which closed early must return: the blocking read stops at end of stream (shared rule)
+    import C16
+    C16.PROG = prog
+    C16.check_partial(ctx, prog, rule='C14.partial', files=False)
     fixture = os.path.join(ir.VERIF, 'fixtures', 'selfdelete_bad.cpp')
     fprog = ir.load_units([fixture])
     fctx = type(ctx)(ctx.prop, ctx.tier, ctx.seed)
@@ -535,3 +540,90 @@ def check_sigpipe(ctx, prog):
         ctx.check(ok, 'C14.sigpipe', f['pq'], role, fwhere(f, e.get('l')), '`%s`' % pe(e)[:80],
                   '%s transmits on the socket with `%s` (no MSG_NOSIGNAL, SIGPIPE not ignored): when the client has closed early the second write raises SIGPIPE and terminates the whole server process - in-flight serve() calls never return and stop(true) never completes' % (f['q'], pe(e)[:80]))
     ctx.floor('C14.sigpipe', n, 1)
+
+
+
+def check_nfds(ctx, prog):
+    """C14.nfds: select() watches every listening descriptor.  The first argument of select() in Sockets::waitInput() must
+    exceed every descriptor put into the set.  The loop that prepares the set is evaluated statement by statement (guards and
+    assignments of its integer locals, `handle()` bound to the descriptor of the current socket) for a number of descriptor
+    sequences - adjacent, descending, with gaps, a single one, descriptor 0 - and the argument expression is evaluated with
+    the values the loop left."""
+    import bounded, bytesets
+    f = fn1(prog, 'asl::Sockets::waitInput')
+    ctx.analysed(f)
+    role = 'waitInput:select() is given a range that covers every descriptor in the set'
+    sel = [e for e in fn_exprs(f) if e.get('k') == 'call' and e.get('fn') in ('select', '::select') and not e.get('clsp') and e.get('a')]
+    if len(sel) != 1:
+        ctx.undecided('C14.nfds', f['pq'], role, fwhere(f), '%d select() calls' % len(sel))
+        return
+    nf = sel[0]['a'][0]
+    nvars = set(w['id'] for w in walk_expr(nf) if w.get('k') == 'var' and w.get('vk') == 'local')
+    loops = [lp for lp in ir.walk_stmts(f['body']) if lp.get('k') in ('for', 'while') and lp.get('l', 0) < sel[0].get('l', 0) and
+             any(w.get('k') == 'bin' and w.get('op', '').endswith('=') and w['op'] not in ('==', '!=', '<=', '>=') and strip_lv(w['x']).get('k') == 'var' and strip_lv(w['x']).get('id') in nvars for w in ir.stmt_exprs(lp['body']))]
+    if len(loops) != 1 and nvars:
+        ctx.undecided('C14.nfds', f['pq'], role, fwhere(f, sel[0]['l']), 'the loop that computes the range `%s` was not found' % pe(nf))
+        return
+    inits = dict((v['id'], v.get('init')) for s_ in ir.walk_stmts(f['body']) if s_.get('k') == 'decl' for v in s_['vars'])
+
+    class Stop(Exception):
+        pass
+
+    def run_body(st, env, h):
+        def bind(e):
+            if e.get('k') == 'call' and (e.get('pq') or '').split('::')[-1] == 'handle' and not e.get('a'):
+                return h
+            return None
+        ev = bounded.Bound(prog, f, dict(env), {}, bind=bind)
+        k = st.get('k')
+        if k == 'block':
+            for x in st['s']:
+                run_body(x, env, h)
+        elif k == 'decl':
+            for v in st['vars']:
+                if v.get('init') is not None and (T(f, v['t']).get('int')):
+                    env[v['id']] = bounded.Bound(prog, f, dict(env), {}, bind=bind).ev(v['init'])
+        elif k == 'if':
+            c = ev.ev(st['c'])
+            if c:
+                run_body(st['then'], env, h)
+            elif st.get('else') is not None:
+                run_body(st['else'], env, h)
+        elif k == 'return':
+            raise Stop()
+        elif k == 'expr':
+            for w in walk_expr(st['e']):
+                if w.get('k') == 'bin' and w.get('op', '').endswith('=') and w['op'] not in ('==', '!=', '<=', '>=') and strip_lv(w['x']).get('k') == 'var' and T(f, strip_lv(w['x']).get('t')).get('int'):
+                    vid = strip_lv(w['x'])['id']
+                    rhs = bounded.Bound(prog, f, dict(env), {}, bind=bind).ev(w['y'])
+                    if w['op'] == '=':
+                        env[vid] = rhs
+                    elif vid in env:
+                        env[vid] = {'+=': env[vid] + rhs, '-=': env[vid] - rhs, '|=': env[vid] | rhs}.get(w['op'], rhs)
+        elif k in ('for', 'while', 'do', 'switch'):
+            raise bytesets.Undecidable('nested control flow in the preparing loop')
+    bad = None
+    runs = 0
+    try:
+        for seq in ([3], [0], [3, 4], [4, 3], [3, 5], [5, 3, 4], [7, 8, 9], [9, 8, 7], [4, 4], [1, 2, 3, 4, 5, 6]):
+            env = {}
+            for vid in nvars:
+                if inits.get(vid) is not None:
+                    env[vid] = bytesets.Evaluator(prog, f).ev(inits[vid])
+            try:
+                for h in seq:
+                    if loops:
+                        run_body(loops[0]['body'], env, h)
+            except Stop:
+                continue
+            got = bounded.Bound(prog, f, dict(env), {}).ev(nf)
+            runs += 1
+            if got < max(seq) + 1:
+                bad = (seq, got)
+                break
+    except (bytesets.Undecidable, KeyError, TypeError) as u:
+        ctx.undecided('C14.nfds', f['pq'], role, fwhere(f, sel[0]['l']), 'the preparing loop is not evaluable: %s' % u)
+        return
+    ctx.evaluations += runs
+    ctx.check(bad is None, 'C14.nfds', f['pq'], role, fwhere(f, sel[0]['l']), '`%s` > every descriptor for %d descriptor sequences' % (pe(nf), runs),
+              'with the listening descriptors %s the first argument of select() is %s: descriptor %s lies outside the range select() watches, connections to that endpoint are never accepted' % (bad[0] if bad else '', bad[1] if bad else '', max(bad[0]) if bad else ''))
